@@ -91,6 +91,24 @@ def check(env, rep, tier):
                 rep.ob("C17.2", "%s|loop" % fn, found,
                        "cannot establish that the loop at bb%d of %s consumes at least one character per iteration" % (h, fn),
                        sample={"rule": "C17.2", "fn": fn, "loop_head_bb": h, "cursor_advances": found})
+            if kind == "to_cow":
+                # the borrowed form ends at the FIRST closing quote (what the character iterator does)
+                firsts, others = 0, []
+                for s, rv in res:
+                    if isinstance(rv, EnumV) and 0 in rv.variants and isinstance(rv.variants[0], StructV) and rv.variants[0].fields:
+                        sl = rv.variants[0].fields[0]
+                        if isinstance(sl, SliceV):
+                            for sym, _ in sl.len.t:
+                                inf = I.syminfo.get(sym)
+                                if inf and inf[0] == "found_ascii":
+                                    if len(inf) > 4 and inf[4] == "find" and inf[3] == ord('"'):
+                                        firsts += 1
+                                    else:
+                                        others.append(inf[4] if len(inf) > 4 else "?")
+                rep.ob("C17.5", "to_cow|first-closing-quote", firsts >= 1 and not others,
+                       "to_cow does not cut a quoted value at the first closing quote (search used: %s): it differs from the character iterator when text with another quote follows" % (others or "none"),
+                       {"file": body["span"]["f"], "line": body["span"]["l"], "fn": path},
+                       sample={"rule": "C17.5", "paths_cut_at_first_quote": firsts, "other_searches": others})
             if kind in ("parser", "attr") and in_base is not None:
                 for s, rv in res:
                     # C17.4 substrings
